@@ -343,6 +343,9 @@ type PayPlan struct {
 }
 
 type Node struct {
+	// nil; embedded so that the harness still builds when the repository adds a method to the
+	// interface (calling such a method on the model panics, which a check reports)
+	lightning.Client
 	W    *World
 	Name string
 	H    *ctl.Hub
